@@ -467,6 +467,26 @@ def typed_copy_cases():
     return out
 
 
+TYPED_SOURCES = ["", "3", "'3'", "null", "undefined", "true", "1.5", "-1", "NaN", "[1, 2, 300]", "[1, 'x', null, undefined, true, [3], {}, '7']",
+                 "{length: 2, 0: 5, 1: 6}", "{length: '2', 0: 5}", "{length: -1, 0: 5}", "{0: 5}", "{}", "'ab'", "(function () { return arguments })(7, 8)",
+                 "new Uint8Array([1, 200])", "new Int8Array([-1, 5])", "new Float64Array([1.5, -2.5, 1e10])", "new Uint8Array([1, 2, 3]).subarray(1)",
+                 "[[1], [2, 3]]", "{length: 2, get 0() { return 9 }, 1: {valueOf: function () { return 4 }}}", "/a/"]
+TYPED_USES = ["t", "t.length", "(function () { var r = []; for (var v of t) { r.push(v) } return r })()", "(function () { var r = []; for (var k in t) { r.push(k) } return r })()",
+              "Object.keys(t).join()", "[t.hasOwnProperty(0), t.hasOwnProperty(t.length), t.hasOwnProperty('length'), 0 in t, 'length' in t].join()",
+              "[t.constructor === K, t instanceof K, t.buffer instanceof ArrayBuffer, t.buffer.constructor === ArrayBuffer, typeof t.valueOf(), K.BYTES_PER_ELEMENT].join()",
+              "String(t) + '|' + t.join('-') + '|' + JSON.stringify(t)", "Math.max.apply(null, t)", "[].concat(t).length"]
+
+
+def typed_source_cases():
+    out = []
+    for k in ("Uint8Array", "Int16Array", "Float32Array", "Uint8ClampedArray"):
+        for src in TYPED_SOURCES:
+            for u in TYPED_USES:
+                p = "var K = %s; var r; try { r = (function () { var t = new K(%s); return %s })() } catch (e) { r = 'throw:' + e.name } r" % (k, src, u)
+                _case(out, p, "new K(source)", True, kind=k)
+    return out
+
+
 def run_join_state(payload):
     """inline oracle: converting arrays to strings gives the same answers after k conversions that failed (nesting too deep,
     a throwing element) as before them - in the same evaluation, in a later evaluation on the same context and on a new one"""
@@ -555,6 +575,11 @@ def core_spaces():
                "all 81 ordered pairs of kinds as two views over one 16-byte ArrayBuffer x 12 value patterns written "
                "through the first and read through the second, then two stores through the second read through the first",
                "81 x 12"),
+        _space("c17_typed_source", typed_source_cases,
+               "4 kinds x %d construction sources (nothing, lengths of every type, arrays with odd elements, array-likes with odd lengths "
+               "and accessor elements, strings, arguments objects, typed arrays and subarrays, nested arrays, a regex) x %d uses "
+               "(contents, length, for-of, for-in, keys, own-key tests, constructor / instanceof / buffer, renderings, apply, concat)" % (
+                   len(TYPED_SOURCES), len(TYPED_USES)), "4 x %d x %d" % (len(TYPED_SOURCES), len(TYPED_USES))),
         _space("c17_typed_copy", typed_copy_cases,
                "all 81 ordered pairs of kinds: typed arrays built from a view (constructor before and after the writes, constructor "
                "from a subarray, set(view), set(subarray, offset), subarray of a subarray) after the shared buffer was written through "
